@@ -612,6 +612,16 @@ fn exec_op(
                 loom::thread::yield_now();
             }
         },
+        K::Await2 { a, b, mo, wa, wb } => {
+            while !(o.atomics[a].load(mo.std()) as u64 == wa && o.atomics[b].load(mo.std()) as u64 == wb) {
+                if prog.objs.spin_hint {
+                    loom::hint::spin_loop();
+                } else {
+                    loom::thread::yield_now();
+                }
+            }
+            Res::U
+        }
         K::AwaitSpun { a, mo, want } => {
             let mut spun = 0;
             loop {
